@@ -159,6 +159,8 @@ DOCS = {
     "google": '    """\n    Summary of {n}\n\n    Args:\n      a (int): the a\n      b (str): the b\n\n    Returns:\n      int: the result\n    """\n',
     "numpydoc": '    """\n    Summary of {n}\n\n    Parameters\n    ----------\n    a : int\n        the a\n    b : str\n        the b\n\n    Returns\n    -------\n    int\n        the result\n    """\n',
     "none": "",
+    # a docstring that consists of type lines only (it becomes EMPTY once the types move into the header)
+    "typesonly": '    """\n    :type a: ```int```\n\n    :type b: ```str```\n\n    :rtype: ```int```\n    """\n',
 }
 SIGS = [
     "(a, b='x')", "(a: int, b: str = 'x') -> int", "(a=1, *args, b=2, **kw)", "(a, /, b='q', *, c=3)", "(\n    a,  # first\n    b='x',\n)", "(a, b=(1, 2), *rest, flag=False, **extra)",
@@ -175,7 +177,13 @@ def gen_module(style, sig, variant):
     doc = DOCS[style]
     parts = ["# leading comment\nimport os  # trailing comment\n\nCONST = 5  # keep me\n\n\n"]
     deco = "@staticmethod\n    " if variant == "method" else ""
-    if variant == "function":
+    if variant == "stub":
+        # interface-style definitions whose whole body is the docstring
+        if not doc:
+            return None
+        parts.append("def func%s:\n%s\n\n" % (sig, doc.format(n="func")))
+        parts.append("class Iface(object):\n    def meth%s:\n%s\n\n" % (sig.replace("(a", "(self, a", 1) if sig.startswith("(a") else sig, doc.replace("\n    ", "\n        ").replace('    """', '        """', 1).format(n="meth")))
+    elif variant == "function":
         parts.append("def func%s:\n%s    x = a  # body comment\n    return 1\n\n\n" % (sig, doc.format(n="func")))
         parts.append("async def afunc%s:\n%s    return 2\n\n\n" % (sig, doc.format(n="afunc")))
     elif variant == "decorated":
@@ -251,6 +259,8 @@ def one_case(case):
 
     style, sig, variant, target, ann = case
     src = gen_module(style, sig, variant)
+    if src is None:
+        return None
     try:
         ast.parse(src)
     except SyntaxError:
@@ -294,7 +304,7 @@ def one_case(case):
 
 
 def bounded(tier):
-    cases = [c for c in itertools.product(DOCS, SIGS, ("function", "method", "nested", "decorated"), ("rest", "google", "numpydoc"), (True, False))
+    cases = [c for c in itertools.product(DOCS, SIGS, ("function", "method", "nested", "decorated", "stub"), ("rest", "google", "numpydoc"), (True, False))
              if tier == "thorough" or (hash(repr(c[:3])) % 2 == 0 or c[2] == "function")]
     res = common.pmap(one_case, cases)
     fails, raised = {}, 0
@@ -357,7 +367,7 @@ def main(tier, write_baseline=False):
         n, raised, fails = bounded(tier)
         run.bounded.append({
             "name": "the property's oracle on doctrans over generated modules (bounded, NOT counted as proved)",
-            "bound": "%d runs: source style {rest, google, numpydoc, none} x %d signatures (defaults, annotations, *args/**kw, positional-only, kw-only, multi-line header with comments) x {functions+async, method in class, nested def, call-decorated def} x 3 target styles x annotations on/off (quick: seeded half); %d runs raised (file checked byte-identical)" % (n, len(SIGS), raised),
+            "bound": "%d runs: source style {rest, google, numpydoc, none, type-lines-only} x %d signatures (defaults, annotations, *args/**kw, positional-only, kw-only, multi-line header with comments) x {functions+async, method in class, nested def, call-decorated def, docstring-only stubs} x 3 target styles x annotations on/off (quick: seeded half); %d runs raised (file checked byte-identical)" % (n, len(SIGS), raised),
             "rule": "one doctrans run per combination; non-trivial = doctrans returns without raising",
             "evaluations": n, "distinct_nontrivial": n - raised,
             "failures": [{"kind": k[0], "variant": k[1], "what": v[1][:300], "case": list(v[0])} for k, v in list(fails.items())[:5]],
